@@ -27,7 +27,7 @@ type C06Case struct {
 	Layout model.Layout `json:"layout"` // main = new version, v0 = old version
 }
 
-const c06Rule = "pairs (old, new) of individually valid generated models: self (new = old), rewrite (new = old with definitions/files permuted, a type renamed with an alias keeping the old name, unused types added, comments changed), edit (new = old + one edit of docs/cpp/evolution.md at a generated position in a definition reachable from a protocol), arbitrary (two independent models sharing names). oracle: CLI never aborts, exit in {0,1}, identical output on 3 runs; self/rewrite => exit 0 with no warning/error; edit => verdict of its documented class (compatible: exit 0 silent; partially compatible: exit 0 with >=1 warning; incompatible: exit 1 with >=1 error). non-trivial = gen != self and the edit position is below the top level of a protocol step (inside a record/enum/union/generic) or the pair is a rewrite; distinct = hash of both versions"
+const c06Rule = "pairs (old, new) of individually valid generated models: self (new = old), rewrite (new = old with definitions/files permuted, a type renamed with an alias keeping the old name, unused types added, comments changed), edit (new = old + one edit of docs/cpp/evolution.md at a generated position in a definition reachable from a protocol; the type-argument edit also in a two-sided form in which the old and the new model name their instantiation through closed aliases of different names), arbitrary (two independent models sharing names). oracle: CLI never aborts, exit in {0,1}, identical output on 3 runs; self/rewrite => exit 0 with no warning/error; edit => verdict of its documented class (compatible: exit 0 silent; partially compatible: exit 0 with >=1 warning; incompatible: exit 1 with >=1 error). non-trivial = gen != self and the edit position is below the top level of a protocol step (inside a record/enum/union/generic) or the pair is a rewrite; distinct = hash of both versions"
 
 func genC06(t *rapid.T) (C06Case, bool) {
 	cfg := model.DefaultGen()
@@ -81,7 +81,15 @@ func genC06(t *rapid.T) (C06Case, bool) {
 		}
 	case "edit":
 		e := model.EvoEdits[rapid.IntRange(0, len(model.EvoEdits)-1).Draw(t, "edit")]
-		w, ok := e.Apply(t, neu, model.NewEnv(neu))
+		var w string
+		var ok bool
+		if e.Name == "change-type-argument-via-alias" && rapid.Bool().Draw(t, "betweenAliases") {
+			// both sides name their instantiation through a closed alias, of different names
+			e.Name = "change-type-argument-between-aliases"
+			w, ok = model.ChangeTypeArgBetweenAliases(t, old, neu)
+		} else {
+			w, ok = e.Apply(t, neu, model.NewEnv(neu))
+		}
 		if !ok {
 			return c, false
 		}
